@@ -3,6 +3,7 @@ package main
 // Evaluation of specification expressions to SMT terms in a program state.
 
 import (
+	"go/token"
 	"fmt"
 	"go/constant"
 	"go/types"
@@ -37,6 +38,7 @@ type Env struct {
 	loop   *loopInfo
 	bound  map[string]EVal
 	depth  int
+	pos    token.Pos // callsite clauses: where the call is (selects among same-named locals)
 }
 
 func (e *Env) heap(key string, sort Sort) Term {
@@ -808,6 +810,38 @@ func (s *Session) funcEnv(st *State, fr *Frame, results []Value) *Env {
 	return env
 }
 
+// allocInScope: the local variable called name that Go's scoping rules select at pos (nil when there
+// is none, or when it is not an Alloc of this function, e.g. a parameter).
+func (s *Session) allocInScope(name string, pos token.Pos) *ssa.Alloc {
+	if s.fn == nil || s.fn.Pkg == nil || s.fn.Pkg.Pkg == nil {
+		return nil
+	}
+	sc := s.fn.Pkg.Pkg.Scope().Innermost(pos)
+	if sc == nil {
+		return nil
+	}
+	_, obj := sc.LookupParent(name, pos)
+	if obj == nil {
+		return nil
+	}
+	var found *ssa.Alloc
+	cnt := 0
+	for _, b := range s.fn.Blocks {
+		for _, in := range b.Instrs {
+			if a, ok := in.(*ssa.Alloc); ok && a.Comment == name {
+				cnt++
+				if a.Pos() == obj.Pos() {
+					found = a
+				}
+			}
+		}
+	}
+	if cnt < 2 {
+		return nil
+	}
+	return found
+}
+
 // callerEnv: invariants, callsite clauses, ghost updates: names denote the
 // current values of the function's variables.
 func (s *Session) callerEnv(st *State) *Env {
@@ -840,7 +874,13 @@ func (s *Session) callerEnv(st *State) *Env {
 				}
 			}
 		}
-		// local variables (Allocs by source name, in declaration order)
+		// local variables (Allocs by source name, in declaration order). Without an explicit ordinal, a
+		// callsite clause means the variable of that name that is in scope at the call (Go's own
+		// scoping): five loops may each declare their own k.
+		var scoped *ssa.Alloc
+		if !strings.Contains(name, "#") && env.pos.IsValid() {
+			scoped = s.allocInScope(base, env.pos)
+		}
 		n := 0
 		undefinedLocal := false
 		for _, b := range s.fn.Blocks {
@@ -850,7 +890,11 @@ func (s *Session) callerEnv(st *State) *Env {
 					continue
 				}
 				n++
-				if n != ord {
+				if scoped != nil {
+					if a != scoped {
+						continue
+					}
+				} else if n != ord {
 					continue
 				}
 				t := a.Type().Underlying().(*types.Pointer).Elem()
